@@ -11,7 +11,8 @@ Structure:
 import Bee2V.C05.ModelAdd
 import Mathlib.Tactic.Ring
 import Mathlib.Tactic.Linarith
-namespace Bee2V.C05
+namespace Bee2V.C05.Add
+open Bee2V.C05
 
 /-! ## §1 words -/
 
@@ -1615,4 +1616,4 @@ theorem zzHalfMod_safe_val (k : Nat) (a0 : Nat) (as : List Nat) (m0 : Nat) (ms :
   rw [h1]
   omega
 
-end Bee2V.C05
+end Bee2V.C05.Add
